@@ -7,6 +7,9 @@ hook_shas = [l.split()[0] for l in hooks_commits if l.split(' ',1)[1].startswith
 
 # property id -> (engine, technique, level text, level note, design_ref)
 CHECKS = {
+ 'C14': ('hist', 'explicit-state exploration of histories; in every reached state every invalid request of a menu is issued through three entry points and the full public observation is compared before/after',
+         'In every state reached by the history exploration (depth 3 quick / 4 thorough) each of 17 kinds of invalid request is issued directly, in the middle of a 3-element batch and from a JSON file; whenever the call returns Err the complete public observation (content, known text selections, segmentation, raw lengths, index sizes, id lookups) must equal the one before, and the corrected request must then produce exactly the store it produces on the untouched state.',
+         'Bounded depth / alphabet / menu of invalid requests (c14::invalid_menu). Requests the library accepts are outside this property.', 'DESIGN.md section 4 C14'),
  'C01': ('hist', 'explicit-state exploration of operation histories on the real store in lock-step with a reference model; state matching on the complete internal dump; per state every reverse accessor is compared with a scan of the forward references',
          'Every history of valid operations (annotate with all nine selector kinds, relative offsets, range-compressed complex selectors; remove annotation/data/key/resource/dataset, strict and non-strict) up to depth 4 (quick) / 5 (thorough) is executed on the real store and on the model; in every reached state all reverse lookups named in the property plus index_totalcount must equal what a scan of the live annotations forward references gives, and the forward references must equal what the builder resolved to.',
          'Bounded depth and alphabet (hist.rs enabled_ops). Trusted: model.rs (documented semantics), observe.rs (own walk over the public Selector enum), hook H1 for state matching only.', 'DESIGN.md section 4 C01'),
